@@ -201,3 +201,59 @@ theorem slip_roundtrip_append (K : SlipK) (hK : K.WF) (x rest : Bytes) :
   | cons a r => simp [slipByte, slipFlush]
 
 end Muscle.Gateway
+
+namespace Muscle.Gateway
+open Muscle
+
+theorem takeWhile_slipEncode (K : SlipK) (l : List Bytes) :
+    ((l.map (slipEncode K)).takeWhile (fun c => !c.isEmpty)) = l.map (slipEncode K) := by
+  induction l with
+  | nil => rfl
+  | cons x r ih => simp [List.takeWhile_cons, slipEncode, ih]
+
+/-- what a Message contributes to the SLIP stream: the encodings of its chunks up to the first empty one -/
+theorem rawEff_slipMsg (K : SlipK) (m : List Bytes) :
+    rawEff (slipMsg K m) = ((m.takeWhile (fun c => !c.isEmpty)).map (slipEncode K)).flatten := by
+  simp only [rawEff, slipMsg, takeWhile_slipEncode]
+
+/-- a run of encoded non-empty chunks decodes to exactly those chunks -/
+theorem slip_chunks_roundtrip (K : SlipK) (hK : K.WF) : ∀ (xs : List Bytes) (rest : Bytes), (∀ x ∈ xs, x.isEmpty = false) →
+    feedBy (slipByte K) slipIdle ((xs.map (slipEncode K)).flatten ++ rest) =
+      ((feedBy (slipByte K) slipIdle rest).1, xs ++ (feedBy (slipByte K) slipIdle rest).2) := by
+  intro xs
+  induction xs with
+  | nil => intro rest _; simp
+  | cons x r ih =>
+    intro rest h
+    have hx := h x (by simp)
+    simp only [List.map_cons, List.flatten_cons, List.append_assoc]
+    rw [slip_roundtrip_append K hK x, ih rest (fun y hy => h y (by simp [hy]))]
+    simp [hx]
+
+theorem takeWhile_all_nonempty (m : List Bytes) : ∀ x ∈ m.takeWhile (fun c => !c.isEmpty), x.isEmpty = false := by
+  induction m with
+  | nil => intro x hx; simp at hx
+  | cons a r ih =>
+    intro x hx
+    rw [List.takeWhile_cons] at hx
+    cases ha : a.isEmpty with
+    | true => simp [ha] at hx
+    | false =>
+      simp only [ha, Bool.not_false, if_true, List.mem_cons] at hx
+      rcases hx with h | h
+      · rw [h]; exact ha
+      · exact ih x h
+
+/-- a whole queue of SLIP Messages -/
+theorem slip_stream_roundtrip (K : SlipK) (hK : K.WF) : ∀ (ms : List (List Bytes)),
+    feedBy (slipByte K) slipIdle (streamOf (fun m => rawEff (slipMsg K m)) ms) =
+      (slipIdle, (ms.map (fun m => m.takeWhile (fun c => !c.isEmpty))).flatten) := by
+  intro ms
+  induction ms with
+  | nil => simp [streamOf, feedBy]
+  | cons m r ih =>
+    simp only [streamOf]
+    rw [rawEff_slipMsg, slip_chunks_roundtrip K hK _ _ (takeWhile_all_nonempty m), ih]
+    simp
+
+end Muscle.Gateway
